@@ -1085,3 +1085,120 @@ def shrink_val(v):
         rq = func_reqs(v)
         for i in range(len(rq)):
             yield v[:4] + [rq[:i] + rq[i + 1:]]
+
+
+# ----------------------------------------------------------------------------- helpers over sugar (C14, additive)
+# Separate generators (seeded C14-h: `None_(opt_ty)` unpacked a payload type that happened to be a tys.Option): the
+# arguments of Some / None_ / Left / Right / Tuple are themselves sugar — Option of Option, Either of Either, Tuple of
+# Tuple, UnitSum / Bool inside, the same rows spelt as a general Sum — with rows of exactly one entry favoured (where
+# "the type I was given" and "the row I was given" are easiest to confuse).  rand_ty / rand_vty / rand_val /
+# rand_val_of / rand_func and every stream built on them are unchanged.
+
+SUGAR_TYS = ("option", "either", "tuple", "unit", "bool")
+
+
+def rand_sugar_ty(rng, depth):
+    """A sugar type whose rows hold sugar types again (down to `depth` levels), or the same rows as a general Sum."""
+    if depth <= 0:
+        return rng.choice([["bool"], ["bool"], ["unit", rng.choice([0, 1, 1, 2, 3])], ["tuple", []], ["option", []],
+                           ["int", rng.randint(0, 6)], ["usize"], ["qubit"], ["float"], ["func", [], [], []]])
+    row = lambda: [rand_sugar_ty(rng, depth - rng.choice([1, 1, 2])) for _ in range(rng.choice([0, 1, 1, 1, 1, 2, 3]))]
+    k = rng.choice(["option", "option", "option", "either", "either", "tuple", "tuple", "sum"])
+    if k == "option":
+        return ["option", row()]
+    if k == "either":
+        return ["either", row(), row()]
+    if k == "tuple":
+        return ["tuple", row()]
+    # the rows of an option / either / tuple / a longer sum, spelt with the general class
+    n = rng.choice([1, 2, 2, 3])
+    rows = [row() for _ in range(n)]
+    if n == 2 and rng.random() < 0.5:
+        rows[0] = []
+    return ["sum", rows]
+
+
+def rand_sugar_val(rng, depth):
+    """A helper tower whose (type and value) arguments are sugar at every level: a value of a rand_sugar_ty type
+    (Some / None_ / Left / Right / Tuple / raw Sum chosen by rand_val_of), or two values of one sugar type side by
+    side in a collection that declares this type (as the two inhabitants of Option(Option(T)) in one list)."""
+    t = rand_sugar_ty(rng, max(depth, 1))
+    r = rng.random()
+    if r < 0.3:
+        # a helper called with exactly ONE argument, which is sugar: the type t / a helper value of type t
+        h = rng.choice(["none", "none", "leftT", "rightT", "some", "tuple", "leftV", "rightV"])
+        if h in ("none", "leftT", "rightT") and rng.random() < 0.5:
+            a, b = rand_sugar_ty(rng, depth - 1), rand_sugar_ty(rng, depth - 1)
+            t = rng.choice([["option", [a]], ["option", [a]], ["option", [a, b]], ["tuple", [a]], ["either", [a], [b]]])
+        other = lambda: [rand_val_of(rng, rand_sugar_ty(rng, depth - 1), depth) for _ in range(rng.choice([0, 1, 1, 2]))]
+        orow = lambda: [rand_sugar_ty(rng, depth - 1) for _ in range(rng.choice([0, 1, 1, 2]))]
+        if h == "none":
+            return ["none", [t]]
+        if h == "leftT":
+            return ["left", other(), [t]]
+        if h == "rightT":
+            return ["right", [t], other()]
+        v = rand_val_of(rng, t, depth)
+        if h == "some":
+            return ["some", [v]]
+        if h == "tuple":
+            return ["tuple", [v]]
+        if h == "leftV":
+            return ["left", [v], orow()]
+        return ["right", orow(), [v]]
+    if r < 0.75:
+        return rand_val_of(rng, t, depth)
+    vs = [rand_val_of(rng, t, depth) for _ in range(rng.choice([1, 2, 2, 3]))]
+    if r < 0.84:
+        return ["array", vs, t]
+    if r < 0.94 or not desc_copyable(t):
+        return ["list", vs, t]
+    return ["sarray", vs, t, "tbl"]
+
+
+def sugar_args(v, acc=None):
+    """Statistics: for every helper in a value description, the sugar kinds among its type arguments
+    ('none:option', 'left:tuple' ...) and value arguments ('some<none', 'tuple<tuple' ...); a key ending in '!' counts
+    the helpers called with exactly one argument, which is sugar."""
+    acc = {} if acc is None else acc
+    k = v[0]
+
+    def add(key):
+        acc[key] = acc.get(key, 0) + 1
+    trow = v[{"none": 1, "left": 2, "right": 1}[k]] if k in ("none", "left", "right") else None
+    if trow is not None:
+        for t in trow:
+            if t[0] in SUGAR_TYS:
+                add("%s:%s" % (k, t[0]))
+        if len(trow) == 1 and trow[0][0] in SUGAR_TYS:
+            add("%s:%s!" % (k, trow[0][0]))
+    if k in ("tuple", "some", "left", "right"):
+        kids = child_vals(v)
+        for c in kids:
+            if c[0] in ("tuple", "some", "none", "left", "right", "unitsum", "bool"):
+                add("%s<%s" % (k, c[0]))
+        if len(kids) == 1 and kids[0][0] in ("tuple", "some", "none", "left", "right", "unitsum", "bool"):
+            add("%s<%s!" % (k, kids[0][0]))
+    for c in child_vals(v):
+        sugar_args(c, acc)
+    return acc
+
+
+def shrink_helper_rows(v):
+    """Smaller type rows of None_ / Left / Right (drop an entry, an entry replaced by a smaller type), at the root and
+    at every position of a helper tower where the enclosing type is inferred from the value (Tuple / Some / Left /
+    Right fields), so a well-typed description stays well typed."""
+    k = v[0]
+    pos = {"none": 1, "left": 2, "right": 1}.get(k)
+    if pos is not None:
+        row = v[pos]
+        for i in range(len(row)):
+            yield v[:pos] + [row[:i] + row[i + 1:]] + v[pos + 1:]
+            for s in shrink_ty(row[i]):
+                yield v[:pos] + [row[:i] + [s] + row[i + 1:]] + v[pos + 1:]
+    vp = {"tuple": 1, "some": 1, "left": 1, "right": 2}.get(k)
+    if vp is not None:
+        l = v[vp]
+        for i in range(len(l)):
+            for s in shrink_helper_rows(l[i]):
+                yield v[:vp] + [l[:i] + [s] + l[i + 1:]] + v[vp + 1:]
